@@ -6,8 +6,8 @@
 (* C17 and the access bounds of C19 are evaluated on the recorded values.            *)
 EXTENDS TVCommon, Score, LimitSort
 
-VARIABLES l, sizes, memoD, memoJ, memoS, viol, drift, cnt
-vars == <<l, sizes, memoD, memoJ, memoS, viol, drift, cnt>>
+VARIABLES l, sizes, memoD, memoJ, memoS, memoG, viol, drift, cnt
+vars == <<l, sizes, memoD, memoJ, memoS, memoG, viol, drift, cnt>>
 
 PropIds == {"C01","C05","C09","C15","C16","C17","C19","C06","ood","L2"}
 E == Rec[l]
@@ -144,28 +144,42 @@ Apply(r) ==
   /\ drift' = drift \o r.d
   /\ cnt'   = Bump(cnt, r.n)
 
-TvTm == /\ E.op = "tm" /\ ~Has(E, "unsupported") /\ Apply(TmChecks) /\ UNCHANGED <<sizes, memoD, memoJ, memoS>>
+TvTm == /\ E.op = "tm" /\ ~Has(E, "unsupported") /\ Apply(TmChecks) /\ UNCHANGED <<sizes, memoD, memoJ, memoS, memoG>>
 
-\* the pre-filters of word_match on literal words: the verdicts follow the true length ratio and the true set similarity
+\* the pre-filters of word_match on literal words.  C17 at the call site: the Jaccard gate must be a function of the true
+\* set similarity of the slices it compares, monotone in it - whatever its threshold is (a changed threshold is drift,
+\* not a violation): no pair may be rejected whose similarity is at least that of a pair that was accepted.
+GateSlices == [r |-> IF E.qfin THEN E.r ELSE SubSeq(E.r, 1, Min2(Len(E.q) + 1, Len(E.r))), q |-> E.q]
+GateSim == [p |-> RefInter(GateSlices.r, GateSlices.q), q |-> Max2(RefUnion(GateSlices.r, GateSlices.q), 1)]
+FracLeq(a, b) == a.p * b.q <= b.p * a.q
 GateChecks ==
   IF Has(E, "panic") THEN Res(<<Finding(l, "C01", "word gate panicked")>>, <<>>, <<"C17">>)
-  ELSE Res(
-         Check(E.jaccard_ok = JaccardCheck(E.r, E.q, E.qfin), l, "C17", "the Jaccard pre-filter does not follow the true set similarity")
+  ELSE LET sim == GateSim
+           bad == IF E.jaccard_ok THEN memoG.maxFail # <<>> /\ FracLeq(sim, memoG.maxFail[1])
+                                  ELSE memoG.minPass # <<>> /\ FracLeq(memoG.minPass[1], sim)
+       IN Res(
+         Check(~bad, l, "C17", "the Jaccard pre-filter rejects a pair at least as similar as one it accepts")
       \o AccFindings(E, l),
-         Check(E.length_ok = LengthCheck(Len(E.r), Len(E.q), E.qfin), l, "L2", "length gate differs from WordMatch.tla"),
+         Check(E.jaccard_ok = JaccardCheck(E.r, E.q, E.qfin), l, "L2", "Jaccard gate differs from WordMatch.tla (threshold 0.51)")
+      \o Check(E.length_ok = LengthCheck(Len(E.r), Len(E.q), E.qfin), l, "L2", "length gate differs from WordMatch.tla"),
          <<"C17", "C19">>)
-TvGate == /\ E.op = "gate" /\ ~Has(E, "unsupported") /\ Apply(GateChecks) /\ UNCHANGED <<sizes, memoD, memoJ, memoS>>
+TvGate == /\ E.op = "gate" /\ ~Has(E, "unsupported") /\ Apply(GateChecks)
+          /\ memoG' = IF Has(E, "panic") THEN memoG
+                       ELSE IF E.jaccard_ok
+                         THEN [memoG EXCEPT !.minPass = IF @ = <<>> \/ FracLeq(GateSim, @[1]) THEN <<GateSim>> ELSE @]
+                         ELSE [memoG EXCEPT !.maxFail = IF @ = <<>> \/ FracLeq(@[1], GateSim) THEN <<GateSim>> ELSE @]
+          /\ UNCHANGED <<sizes, memoD, memoJ, memoS>>
 
 TvDl  == /\ E.op = "dl" /\ ~Has(E, "unsupported")
          /\ Apply(DlChecks)
          /\ sizes' = IF Has(E, "size") THEN Put(sizes, E.inst, E.size) ELSE [x \in DOMAIN sizes \ {E.inst} |-> sizes[x]]
          /\ memoD' = IF Has(E, "d_x2") THEN Put(memoD, <<E.w1, E.c1, E.w2, E.c2>>, E.d_x2) ELSE memoD
-         /\ UNCHANGED <<memoJ, memoS>>
+         /\ UNCHANGED <<memoJ, memoS, memoG>>
 TvJac == /\ E.op = "jac" /\ ~Has(E, "unsupported")
          /\ Apply(JacChecks)
          /\ memoJ' = IF Has(E, "p") THEN Put(memoJ, <<E.a, E.b>>, <<E.p, E.q>>) ELSE memoJ
-         /\ UNCHANGED <<sizes, memoD, memoS>>
-TvLs  == /\ E.op = "lsort" /\ ~Has(E, "unsupported") /\ Apply(LsChecks) /\ UNCHANGED <<sizes, memoD, memoJ, memoS>>
+         /\ UNCHANGED <<sizes, memoD, memoS, memoG>>
+TvLs  == /\ E.op = "lsort" /\ ~Has(E, "unsupported") /\ Apply(LsChecks) /\ UNCHANGED <<sizes, memoD, memoJ, memoS, memoG>>
 TvTok == /\ E.op = "tok"
          /\ Apply(TokChecks)
          /\ memoS' = IF Has(E, "tok")
@@ -175,18 +189,18 @@ TvTok == /\ E.op = "tok"
                                IF k \in DOMAIN memoS THEN memoS[k]
                                ELSE W[CHOOSE i \in DOMAIN W : k = <<E.lang, SubSeq(E.tok.chars, W[i].s + 1, W[i].e)>>].stem]
                        ELSE memoS
-         /\ UNCHANGED <<sizes, memoD, memoJ>>
+         /\ UNCHANGED <<sizes, memoD, memoJ, memoG>>
 TvNew == /\ E.op \in {"dlnew", "jacnew"}
          /\ sizes' = IF E.op = "dlnew" THEN Put(sizes, E.inst, InitCapacity + 2) ELSE sizes
-         /\ UNCHANGED <<memoD, memoJ, memoS, viol, drift, cnt>>
+         /\ UNCHANGED <<memoD, memoJ, memoS, memoG, viol, drift, cnt>>
 TvCase == /\ E.op = "case"
           /\ sizes' = <<>>                \* component instances are dropped at a case boundary; memos persist
-          /\ UNCHANGED <<memoD, memoJ, memoS, viol, drift, cnt>>
+          /\ UNCHANGED <<memoD, memoJ, memoS, memoG, viol, drift, cnt>>
 TvOther == /\ (E.op \in {"header", "chartable", "endcase"} \/ Has(E, "unsupported"))
-           /\ UNCHANGED <<sizes, memoD, memoJ, memoS, viol, drift, cnt>>
+           /\ UNCHANGED <<sizes, memoD, memoJ, memoS, memoG, viol, drift, cnt>>
 
 TvNext == l <= NRec /\ l' = l + 1 /\ (TvDl \/ TvJac \/ TvLs \/ TvTok \/ TvTm \/ TvGate \/ TvNew \/ TvCase \/ TvOther)
-TvInit == l = 1 /\ sizes = <<>> /\ memoD = <<>> /\ memoJ = <<>> /\ memoS = <<>> /\ viol = <<>> /\ drift = <<>>
+TvInit == l = 1 /\ memoG = [minPass |-> <<>>, maxFail |-> <<>>] /\ sizes = <<>> /\ memoD = <<>> /\ memoJ = <<>> /\ memoS = <<>> /\ viol = <<>> /\ drift = <<>>
           /\ cnt = [p \in PropIds |-> 0]
 TvSpec == TvInit /\ [][TvNext]_vars
 
